@@ -28,6 +28,17 @@ Correspondence (model ≈ code):
       (harness/c07_app.py): callbacks and async iteration, consumers that are busy or start late,
       transport failure of the initial request, cancels from inside callback / errback,
       response.cancel().
+Round 4 dimensions, at every level that runs the real code concerned: the request's transport tuning as applications
+pass it (none, an instance, the CLASSES aiocoap.Reliable / aiocoap.Unreliable, an own subclass as a class, a tuning
+of other constants, tunings that set OBSERVATION_RESET_TIME themselves) x reordered / duplicated / renumbered
+notifications on a clock [(a) (b) (c) (d)]; further requests of the application outstanding -- to the observation's
+peer or another one, registered before or after the observing request -- when the transport reports a failure for
+either peer, a confirmable request runs out of retransmissions, or a request is reset [(b) (c) (d)]; the
+application cancelling the observation itself before the first response, while the body of the first response is
+fetched, the moment `await request.response` returns, or later, with the server notifying on -- and late
+notifications after every kind of end: the token manager must not know the token any more [(c) (d): the return
+value of TokenManager.process_response, which is what makes a message layer acknowledge or reject; (b): RST on
+the wire].
 Oracle: RFC 7641 §3.4 / §4.2 and the termination clauses written from the RFC / the property over
 the observed deliveries (c07_pipe.oracle_history / oracle_iterator, c07_stack.oracle_stack,
 c07_iter.oracle_iter, c07_app.oracle_app, c07_bw.oracle).  A notification is a 2.xx response
@@ -69,7 +80,17 @@ RULE = ("(a) exhaustive: every sequence (with repetitions) of 5-6 notifications 
         "notifications overtaking a fetch, state changes whose notification is lost, older notifications arriving "
         "late; then random server scripts. (c) application-level scenarios through Context.request() (default "
         "BlockwiseRequest and handle_blockwise=False). A case is non-trivial when at least one notification was "
-        "handed over and one was suppressed or the observation ended (level d: and a fetch failed or the loop ended).")
+        "handed over and one was suppressed or the observation ended (level d: and a fetch failed or the loop ended). "
+        "Round 4, enumerated in full: (a) ten transport tunings (none / instance / classes Reliable, Unreliable / own "
+        "subclass as class / other constants tuned / OBSERVATION_RESET_TIME set, as instance and as class) x value pairs "
+        "around 0, +-1, +-2^23 x gaps {0, 1, R'-1, R', R'+1} around the reset time R' that applies (and around 128 s where "
+        "it differs) x terminators x consumers; (b) the same tunings passed through the UDP stack x CON/NON; an "
+        "established observation + 1-2 further requests (same / other peer; observation oldest or newest entry; CON "
+        "acknowledged or NON) x {network error for either peer, retransmissions exhausted, Reset of the other request, "
+        "network error before the first response}; (c) twelve placements of other requests x ten arrival scripts x "
+        "both APIs x four consumers, application cancels at three positions x gaps, late arrivals after every end; "
+        "(d) application cancels at six positions x two first-body shapes x three tails, other requests x five failures, "
+        "tunings.")
 TRUSTED = ["harness clock standing in for `time` inside aiocoap.protocol; wrapper on the "
            "instance's _stop_interest (harness/c07_pipe.py)",
            "read-only peeks at _Iterator._future / _deferred_error and Task._fut_waiter for the state part of "
@@ -77,14 +98,26 @@ TRUSTED = ["harness clock standing in for `time` inside aiocoap.protocol; wrappe
            "level (d): for the time of one run, a wrapper on the class attribute BlockwiseRequest._complete_by_requesting_block2 "
            "(records which item the loop fetches and the outcome, calls the original), a wrapper on the Context instance's "
            "request() and an extra errback on the lower request's observation (harness/c07_bw.py)",
-           "virtual-clock event loop and fake-socket UDP stack of the harness (vloop.py, netsim.py)"]
+           "virtual-clock event loop and fake-socket UDP stack of the harness (vloop.py, netsim.py)",
+           "level (b), scripts with `tuning0`: for the time of the shared runner's do_S call the harness's view of "
+           "`aiocoap.Message` is a wrapper that hands the tuning on as a class / subclass (harness/c07_stack.py); levels "
+           "(c)/(d): harness clock standing in for `time` inside aiocoap.protocol (level c), the return value of "
+           "TokenManager.process_response as the observable for 'rejected like an unknown response', the public "
+           "attribute ClientObservation.cancelled of the lower request's observation (level d, `?L`)"]
 ASSUMPTIONS = ["asyncio semantics the iterator model relies on (await on a done future does not suspend; "
                "Task.cancel() cancels the awaited future if pending, else throws at the wake-up) are "
                "exercised by the level (i) correspondence, not proved",
                "level (d): the Block2 fetch itself (_complete_by_requesting_block2) is C05's; here only its outcome per "
                "notification enters the model; a complete response without Block2 to a follow-up block request (4.04, bare "
                "2.05) is handed over as such and does not end the observation (stated allowance of the oracle)",
-               "time.time() does not go backwards by more than the model's Nat ticks can express (harness clock is monotone)"]
+               "time.time() does not go backwards by more than the model's Nat ticks can express (harness clock is monotone)",
+               "the 128 s of the property are the RFC's; a request whose tuning itself sets OBSERVATION_RESET_TIME is "
+               "judged by that value (the application's own choice), a tuning of any other constant is judged by 128 s",
+               "when the application cancels the observation itself, the client notices at the next notification (it has no "
+               "other occasion; with the default API after its tasks ran): ONE more notification may still be taken by "
+               "the token manager, every later one must be rejected (stated allowance, both APIs)",
+               "asyncio: a task cancelled before its first step executes none of its code (Upper.Start.cancelledEarly), "
+               "exercised by the level (d) correspondence, not proved"]
 
 M23, M24 = 1 << 23, 1 << 24
 
@@ -308,6 +341,50 @@ def fam_cancel_first():
                 yield {"observe": True, "iter": None, "events": pre + [first] + tail}
 
 
+def fam_tuning(R):
+    """the request's transport tuning as a dimension: none, an instance, the classes aiocoap.Reliable / Unreliable
+    (as aiocoap-client passes them), an application's subclass passed as a class, a tuning of other constants, and
+    tunings that set OBSERVATION_RESET_TIME themselves (instance and class) -- crossed with notifications that are
+    not serial-number-newer (reordered, duplicated, half a circle away, renumbered) at gaps around the reset time
+    that applies (and around 128 s where the tuning says otherwise), terminating responses and consumers"""
+    for kind in c07_pipe.TUNINGS:
+        Rk = c07_pipe.tuned_reset_ticks(kind, R)
+        gaps = [0, 1, Rk - 1, Rk, Rk + 1] + ([R - 1, R, R + 1] if Rk != R else [])
+        for v1 in (5, M24 - 1):
+            for d in (0, 1, -1, M23 - 1, M23, M23 + 1):
+                v2 = (v1 + d) % M24
+                for gap in gaps:
+                    yield {"observe": True, "iter": None, "tuning": kind,
+                           "events": [notif(7, v1, 0), notif(7 + gap, v2, 1), notif(8 + gap, v2, 2),
+                                      notif(9 + gap, v1, 3)]}
+        # reordered / duplicated / renumbered after the reset time / exactly at it, then the final response
+        for it in (None, {"mode": "attentive", "start": 0}, {"mode": "busy", "start": 0, "work": 2},
+                   {"mode": "lazy", "start": 3}):
+            for term in (["M", 0, 132, None, 90, 1], ["M", 0, 69, None, 90, 0], ["X", 0, 2], None):
+                t = 3
+                evs = [notif(t, 10, 0)]
+                for i, (v, g) in enumerate([(12, 2), (11, 2), (12, 2), (13, 2), (5, Rk + 1), (6, 1), (3, Rk), (7, 5)]):
+                    t += g
+                    evs.append(notif(t, v, i + 1))
+                if term is not None:
+                    e = list(term)
+                    e[1] = t + 3
+                    evs.append(e)
+                    evs.append(notif(t + 6, 14, 60))
+                yield {"observe": True, "iter": it, "tuning": kind, "events": evs}
+        steps = [(v, g) for v in (9, 10, 11) for g in gaps]
+        for seq in itertools.product(steps, repeat=2):
+            t = 3
+            evs = [notif(t, 10, 0)]
+            for i, (v, g) in enumerate(seq):
+                t += g
+                evs.append(notif(t, v, i + 1))
+            yield {"observe": True, "events": evs, "iter": None, "tuning": kind}
+        # not observable / transport failure of the request itself under every tuning
+        for first in (["M", 3, 69, None, 1, 1], ["M", 3, 132, 5, 1, 0], ["X", 3, 2]):
+            yield {"observe": True, "iter": None, "tuning": kind, "events": [first, notif(9, 11, 2)]}
+
+
 DELTAS = [1, 1, 1, 2, 3, 0, -1, -2, M23 - 1, M23, M23 + 1, -(M23 - 1), -M23, -(M23 + 1), M24 - 1]
 
 
@@ -368,6 +445,17 @@ def random_history(rng, R):
     h = {"observe": observe, "events": out, "iter": it}
     if rng.random() < 0.15:
         h["eb_cancels"] = True
+    if rng.random() < 0.3:
+        h["tuning"] = rng.choice(c07_pipe.TUNINGS[1:])
+        Rk = c07_pipe.tuned_reset_ticks(h["tuning"], R)
+        if Rk != R:
+            # the gaps of this history were drawn around R: move them to around the reset time that applies
+            shift, prev = 0, None
+            for e in out:
+                if prev is not None and e[1] - prev >= R - 1:
+                    shift += R - Rk if rng.random() < 0.7 else 0
+                prev = e[1]
+                e[1] -= shift
     return h
 
 
@@ -383,6 +471,7 @@ def level_a_cases(env, R):
     fams.append(("cancel-in-callback", list(fam_cancel_in_callback())))
     fams.append(("response-cancel", list(fam_response_cancel())))
     fams.append(("errback-cancels", list(fam_errback_cancels())))
+    fams.append(("tuning", list(fam_tuning(R))))
     wrap = [M24 - 2, M24 - 1, 0, 1]
     half = [5, 5 + M23 - 1, 5 + M23, 5 + M23 + 1]
     over = [0, M24 - 1, M24, M24 + 1]
@@ -601,6 +690,99 @@ def stack_boundary_scripts(R):
     return out
 
 
+def stack_concurrent_scripts():
+    """an established observation plus one or two further requests of the application, to the observation's peer or
+    to another one, registered later and still outstanding -- or registered BEFORE the observing request, which then
+    is the newest entry -- when the transport reports an error for the observation's peer / for the other peer, when
+    a confirmable request to either runs out of retransmissions, or when one of them is answered with a Reset; then a
+    confirmable notification on the observation's token (rejected after the end, delivered otherwise)"""
+    out = []
+    SEC = 1 << 20
+
+    def other(t, r, rem, rel, mr=4):
+        return ["S", t, r, rem, False, False, None, rel, 1, None, 0, mr]
+
+    for obs_first in (True, False):
+        tok = c07_stack.TOKEN if obs_first else "22"
+        omid = c07_stack.REQ_MID if obs_first else c07_stack.REQ_MID + 1
+        m1 = c07_stack.REQ_MID + 1 if obs_first else c07_stack.REQ_MID
+        for rem1 in (0, 1):
+            for rel1 in (True, False):
+                for second in (None, 0, 1):
+                    for fail in ("E0", "E1", "TO", "RST1", "E0-before-first"):
+                        if fail in ("TO", "RST1") and not rel1:
+                            continue
+                        if fail == "E0-before-first" and second is not None:
+                            continue
+                        # (odd offsets: no input at the tick of a retransmission timer)
+                        S0 = ["S", 0 if obs_first else 2 * SEC + 3, 0, 0, False, True, None, True, 1, None, 0, 4]
+                        t1 = 9 * SEC + 5 if obs_first else 0
+                        # time-out: 2 s + 4 s after 9 s / 2 s + 4 s + 8 s after 0 s
+                        evs = [S0, other(t1, 1, rem1, rel1, (1 if obs_first else 2) if fail == "TO" else 4)]
+                        if rel1 and fail != "TO":
+                            evs.append(["R", t1 + SEC // 2, rem1, False, "ACK", 0, m1, "-", None, 0])   # empty ACK: stays outstanding
+                        if fail != "E0-before-first":
+                            evs.append(["R", 3 * SEC, 0, False, "ACK", 69, omid, tok, 5, 1])
+                            evs.append(["R", 7 * SEC, 0, False, "NON", 69, 300, tok, 6, 2])
+                        if second is not None:
+                            evs.append(other(11 * SEC + 7, 2, second, False))
+                        tf = 15 * SEC
+                        if fail in ("E0", "E0-before-first"):
+                            evs.append(["E", tf, 0])
+                        elif fail == "E1":
+                            evs.append(["E", tf, 1])
+                        elif fail == "RST1":
+                            evs.append(["R", tf, rem1, False, "RST", 0, m1, "-", None, 0])
+                        # (time-out: request 1, confirmable with MAX_RETRANSMIT 1 / 2, is never acknowledged)
+                        evs.append(["A", 19 * SEC])
+                        evs.append(["R", 20 * SEC, 0, False, "CON", 69, 301, tok, 7, 3])
+                        evs.append(["R", 22 * SEC, 0, False, "NON", 69, 302, tok, 8, 4])
+                        evs.append(["A", 40 * SEC])
+                        evs.sort(key=lambda e: e[1])
+                        for cons in (None, {"work": 0}):
+                            sc = {"events": evs, "rules": [], "draws": [], "mid": c07_stack.REQ_MID, "token": 32,
+                                  "obs_token": tok, "obs_mid": omid, "family": "concurrent:" + fail}
+                            if cons is not None:
+                                if (len(out) // 3) % 4:
+                                    continue
+                                sc["consumer"] = cons
+                            out.append(sc)
+    return out
+
+
+STACK_TUNINGS = ["class", "library-class", ["reset", 60], ["reset", 200], ["class-reset", 60]]
+
+
+def stack_tuning_scripts(R):
+    """the observing request's transport tuning passed the way applications do (as a class -- the harness's, or
+    aiocoap.Reliable / aiocoap.Unreliable --, with OBSERVATION_RESET_TIME set) x CON / NON notifications that are
+    reordered, duplicated, renumbered after the reset time that applies / exactly at it; then the final response"""
+    TOK = c07_stack.TOKEN
+    out = []
+    for kind in STACK_TUNINGS:
+        Rk = c07_pipe.tuned_reset_ticks(kind, R)
+        for rel in (True, False):
+            for mt in ("CON", "NON"):
+                for cons in (None, {"work": 3}):
+                    t = 3
+                    evs = [["S", 0, 0, 0, False, True, None, rel, 1, None, 0, 4],
+                           ["R", t, 0, False, "ACK" if rel else "NON", 69, c07_stack.REQ_MID if rel else 299, TOK, 10, 1]]
+                    mid = 300
+                    for i, (v, g) in enumerate([(12, 5), (11, 5), (12, 5), (13, 5), (5, Rk + 1), (6, 5), (3, Rk), (7, 9)]):
+                        t += g
+                        evs.append(["R", t, 0, False, mt, 69, mid, TOK, v, 2 + i])
+                        mid += 1
+                    evs.append(["R", t + 5, 0, False, mt, 132, mid, TOK, None, 50])
+                    evs.append(["R", t + 9, 0, False, "CON", 69, mid + 1, TOK, 14, 51])
+                    evs.append(["A", t + 40])
+                    sc = {"events": evs, "rules": [], "draws": [], "mid": c07_stack.REQ_MID, "token": 32,
+                          "tuning0": kind, "family": "tuning"}
+                    if cons:
+                        sc["consumer"] = cons
+                    out.append(sc)
+    return out
+
+
 def strip_pipe_events(line):
     """the pipe events of request 0 are what the runner consumes (C02 compares them); the
     harness's own listener on the pipe misses the event during which the pipe ends"""
@@ -618,6 +800,8 @@ def run_level_b(env, rep, R):
     scripts += bnd
     scripts += stack_cancel_first_scripts()
     scripts += stack_audit_scripts()
+    scripts += stack_concurrent_scripts()
+    scripts += stack_tuning_scripts(R)
     for first in ("piggy", "sep", "noobs", "rst", "err", "shutdown", "cancel",
                   "oc+piggy", "oc+sep", "oc+noobs", "oc+rst", "oc+err", "oc+shutdown"):
         scripts += [stack_script(env.rng, R, forced=first) for _ in range(env.scale(6, 100))]
@@ -655,7 +839,7 @@ def run_level_b(env, rep, R):
             rep.count("b:event=" + k + (":" + tok.split(":")[3] if k == "R" else ""))
         for tok in (res.get("iter") or []):
             rep.count("b:consumer-saw=" + tok.split(":")[0])
-        for e in ("NotObservable", "ObservationCancelled", "T0", "T2", "T3"):
+        for e in ("NotObservable", "ObservationCancelled", "T0", "T1", "T2", "T3"):
             if ":eb:" + e in res["impl_line"]:
                 rep.count("b:end=" + e)
         v, key = c07_stack.oracle_stack(sc, res)
@@ -664,7 +848,14 @@ def run_level_b(env, rep, R):
         if res["same_tick_inputs"]:
             rep.count("b:discarded:same-tick-inputs")
             continue
-        lines.append(f"C07 J {R} 1 " + " ".join(res["args"]))
+        if sc.get("family"):
+            rep.count("b:family=" + sc["family"])
+            if sc["family"].startswith("concurrent") and sc.get("obs_token") != c07_stack.TOKEN:
+                rep.count("b:observation-is-newest-entry")
+        if sc.get("tuning0"):
+            k = sc["tuning0"]
+            rep.count("b:tuning=" + (k if isinstance(k, str) else "%s:%d" % tuple(k)))
+        lines.append(f"C07 J {c07_pipe.tuned_reset_ticks(sc.get('tuning0'), R)} 1 " + " ".join(res["args"]))
         impl.append(strip_pipe_events(res["impl_line"]))
         cases.append(case)
     outs = env.lean(lines)
@@ -695,6 +886,9 @@ def classify(rep, fam, h, res):
     n_notif = sum(1 for e in h["events"][1:] if e[0] == "M" and e[3] is not None)
     ebs = [c07_pipe.Bench.exc_name(d[1]) for (_, dels, _) in res["raw"] for d in dels if d[0] == "eb"]
     rep.count("a:family=" + fam)
+    if h.get("tuning") is not None:
+        k = h["tuning"]
+        rep.count("a:tuning=" + (k if isinstance(k, str) else "%s:%d" % tuple(k)))
     if h.get("eb_cancels") and ebs:
         rep.count("a:errback-cancels:" + ebs[0])
     rep.count("a:events=%d" % min(len(h["events"]), 13))
@@ -731,7 +925,7 @@ async def run_level_a(env, rep, bench, R, fams):
             cases.append({"level": "a", "history": h})
         compare(env, rep, cases, lines, impl, what="Request._run over a real Pipe (%s)" % fam)
         if fam.startswith("perm") or fam in ("pairs", "timing", "terminators", "app", "cancel-first", "codes",
-                                             "cancel-in-callback", "response-cancel", "errback-cancels"):
+                                             "cancel-in-callback", "response-cancel", "errback-cancels", "tuning"):
             rep.exhaustive_parts.append(f"{fam}: {len(hs)} histories")
 
 
@@ -859,8 +1053,94 @@ APP_CONSUMERS = [("callbacks", 0, 0), ("iter", 0, 0), ("iter", 0, 2), ("iter", 0
                  ("poll", 0, 0), ("poll", 0, 2), ("poll", 3, 0)]
 
 
-def level_c_cases(env):
+APP_OTHERS = [[[1, 0]], [[1, 1]], [[1, 0], [2, 0]], [[1, 1], [2, 1]], [[2, 0], [2, 1]], [[-1, 0]], [[-1, 1]],
+              [[-1, 0], [1, 1]], [[-1, 1], [1, 0]], [[0, 0]], [[0, 1]], [[-1, 0], [-1, 1], [1, 0], [1, 1]]]
+
+
+def app_concurrent_cases():
+    """further requests of the application outstanding -- to the observation's peer or to another one, registered
+    before the observing request, while it awaits its first response, or later (so that the observation is the
+    oldest, a middle or the newest entry of the token manager) -- when the transport reports a failure for the
+    observation's peer (time-out of retransmissions, network error), for the OTHER peer, or a Reset of the request"""
+    scripts = [
+        [["M", 69, 10, 1], ["M", 69, 11, 2], ["X", 2]],
+        [["M", 69, 10, 1], ["M", 69, 11, 2], ["X", 1], ["M", 69, 12, 3]],
+        [["M", 69, 10, 1], ["M", 69, 11, 2], ["X", 2, 1], ["M", 69, 12, 3], ["M", 132, None, 4]],
+        [["M", 69, 10, 1], ["M", 69, 11, 2], ["X", 1, 1], ["X", 2, 0], ["M", 69, 12, 3]],
+        [["M", 69, 10, 1], ["M", 69, 11, 2], ["M", 132, None, 3], ["X", 2, 0]],
+        [["X", 2]], [["X", 1]], [["X", 0]],
+        [["M", 69, 10, 1], ["X", 0], ["M", 69, 11, 2]],
+        [["M", 69, None, 1], ["X", 2]],
+    ]
+    out = []
+    for bw in (False, True):
+        for cons, op, work in (("callbacks", 0, 0), ("iter", 0, 0), ("iter", 0, 2), ("poll", 0, 0)):
+            for others in APP_OTHERS:
+                for script in scripts:
+                    if len(script) < 3 and any(w > 0 for w, _ in others):
+                        continue
+                    out.append({"blockwise": bw, "consumer": cons, "open": op, "work": work, "others": others,
+                                "arrivals": [[2] + a for a in script]})
+    return out
+
+
+def app_cancel_cases():
+    """the application cancels the observation itself -- before the first response, the moment the response is
+    complete (`await request.response; request.observation.cancel()`), between notifications -- and the server goes
+    on notifying / ends the observation: the token is given up; and late notifications after every kind of end"""
+    out = []
+    notifs = [["M", 69, 10, 1], ["M", 69, 11, 2], ["M", 69, 12, 3], ["M", 69, 13, 4], ["M", 69, 14, 5]]
+    tails = (notifs, notifs[:3] + [["M", 132, None, 4], ["M", 69, 14, 5]], notifs[:2] + [["X", 2], ["M", 69, 14, 5]])
+    for bw in (False, True):
+        for cons, op, work in (("callbacks", 0, 0), ("iter", 0, 0)):
+            for gaps in ((3, 3, 3, 3, 3), (3, 0, 0, 0, 0), (0, 0, 0, 0, 0), (3, 0, 1, 3, 3)):
+                for script in tails:
+                    if cons != "callbacks":
+                        break     # (what an iteration over an observation its application cancelled does is not claimed)
+                    arr = [[g] + a for g, a in zip(gaps, script)]
+                    for oc in (0, 1, 2):
+                        out.append({"blockwise": bw, "consumer": cons, "open": op, "work": work, "oc": oc,
+                                    "arrivals": arr})
+                    out.append({"blockwise": bw, "consumer": cons, "open": op, "work": work,
+                                "cancel_on_response": True, "arrivals": arr})
+            for end in (["M", 132, None, 3], ["M", 69, None, 3], ["M", 160, 20, 3], ["X", 1], ["X", 2], ["X", 0]):
+                out.append({"blockwise": bw, "consumer": cons, "open": op, "work": work,
+                            "arrivals": [[3] + a for a in notifs[:2] + [end] + notifs[2:]]})
+            for first in (["M", 69, None, 1], ["M", 132, 5, 1], ["X", 2], ["X", 0]):
+                out.append({"blockwise": bw, "consumer": cons, "open": op, "work": work,
+                            "arrivals": [[3] + a for a in [first] + notifs[1:4]]})
+    return out
+
+
+def app_tuning_cases(R):
+    """the request's transport tuning (c07_pipe.TUNINGS) x reordered / duplicated / renumbered notifications on a
+    clock, with gaps around the reset time that applies; both APIs, callbacks and iteration"""
+    out = []
+    for kind in c07_pipe.TUNINGS:
+        Rk = c07_pipe.tuned_reset_ticks(kind, R)
+        seqs = [[(10, 0), (12, 5), (11, 5), (12, 5), (13, 5), (5, Rk + 1), (6, 5), (3, Rk), (None, 5)],
+                [(10, 0), (9, Rk - 1), (8, 2), (11, 0), (11, Rk), (11, 1), (2, 9)],
+                [((1 << 24) - 1, 0), (0, 1), ((1 << 24) - 1, 1), ((1 << 23), Rk + 1), (0, Rk + 1), (0, Rk)]]
+        if Rk != R:
+            seqs.append([(10, 0), (9, R - 1), (9, R), (9, R + 1), (8, Rk + 1), (9, 1)])
+        for seq in seqs:
+            arr, at, t = [], [], 0
+            for i, (v, g) in enumerate(seq):
+                t += g
+                at.append(t)
+                arr.append([3, "M", 69 if v is not None else 132, v, i + 1])
+            for bw in (False, True):
+                for cons, op, work in (("callbacks", 0, 0), ("iter", 0, 0), ("iter", 0, 2)):
+                    out.append({"blockwise": bw, "consumer": cons, "open": op, "work": work, "tuning": kind,
+                                "arrivals": arr, "at": at})
+    return out
+
+
+def level_c_cases(env, R):
     out = [c["app"] for _, c in load_corpus("C07") if "app" in c]
+    out += app_concurrent_cases()
+    out += app_tuning_cases(R)
+    out += app_cancel_cases()
     for bw in (False, True):
         for cons, op, work in APP_CONSUMERS:
             for gaps in APP_GAPS:
@@ -932,13 +1212,26 @@ def level_c_cases(env):
             sc["rc"] = env.rng.choice([0, 0, 1])
             if sc["rc"] == 0:
                 sc["arrivals"] = [a for a in arr if a[1] == "M"]
+        elif env.rng.random() < 0.3:
+            sc["others"] = [[env.rng.randrange(-1, len(arr)), env.rng.randrange(2)]
+                            for _ in range(env.rng.randrange(1, 4))]
+            if env.rng.random() < 0.5 and len(arr) > 1:
+                k = env.rng.randrange(1, len(arr))
+                sc["arrivals"] = arr[:k] + [[env.rng.choice([0, 2]), "X", env.rng.choice([1, 2]), 1]] + arr[k:]
+        if env.rng.random() < 0.3:
+            sc["tuning"] = env.rng.choice(c07_pipe.TUNINGS[1:])
+            Rk = c07_pipe.tuned_reset_ticks(sc["tuning"], R)
+            t, sc["at"] = 0, []
+            for _ in sc["arrivals"]:
+                t += env.rng.choice([0, 1, 1, 5, Rk - 1, Rk, Rk + 1, R + 1])
+                sc["at"].append(t)
         out.append(sc)
     return out
 
 
-async def run_level_c(env, rep, aiocoap):
+async def run_level_c(env, rep, aiocoap, R):
     bench = c07_app.AppBench(aiocoap)
-    for sc in level_c_cases(env):
+    for sc in level_c_cases(env, R):
         res = await bench.run(sc)
         case = {"level": "c", "app": sc}
         items = [x for x in res["seen"] if x[0] == "item"]
@@ -961,6 +1254,24 @@ async def run_level_c(env, rep, aiocoap):
             rep.count("c:cancel-in-callback" + (":hit" if ("item", sc["cancel_at"]) in res["seen"] else ""))
         if any(a[1] == "M" and a[3] is not None and not 64 <= a[2] < 96 for a in sc["arrivals"]):
             rep.count("c:non-2.xx-with-observe")
+        if sc.get("oc") is not None or sc.get("cancel_on_response"):
+            rep.count("c:application-cancels:" + ("on-response" if sc.get("cancel_on_response") else
+                                                  "before-first" if sc["oc"] == 0 else "later") +
+                      (":blockwise" if sc["blockwise"] else ":plain"))
+        if any(ok is False for _, ok in res["matched"]):
+            rep.count("c:late-arrival-rejected")
+        if sc.get("tuning") is not None:
+            k = sc["tuning"]
+            rep.count("c:tuning=" + (k if isinstance(k, str) else "%s:%d" % tuple(k)))
+        if sc.get("others"):
+            for a in sc["arrivals"]:
+                if a[1] == "X" and a[2] != 0:
+                    rep.count("c:transport-failure-with-other-requests:" +
+                              ("other-peer" if len(a) > 3 and a[3] else "observed-peer"))
+            if any(w == -1 for w, _ in sc["others"]):
+                rep.count("c:observation-is-newest-entry")
+            for rem, st in res["others"]:
+                rep.count("c:other-request=" + st.split(":")[0])
         for x in res["seen"]:
             if x[0] != "item":
                 rep.count("c:end=" + x[0] + (":" + x[1] if len(x) > 1 else ""))
@@ -1005,6 +1316,24 @@ async def run_level_d(env, rep, aiocoap):
             rep.count("d:response-cancelled-during-first-body")
         if sc.get("cancel_at") is not None and ("item", 69, sc["cancel_at"]) in res["seen"]:
             rep.count("d:cancel-in-callback:hit")
+        if ("oc",) in res["seen"]:
+            rep.count("d:application-cancels:" + ("on-response" if sc.get("cancel_on_response") else
+                                                  "before-first" if st and st[0] == ["OC"] else
+                                                  "during-first-body" if not any(e[0] == "B" for e in
+                                                  res["served"][:res["served"].index(("OC",))]) and sc["reps"][0][0] > 1
+                                                  else "later"))
+        if any(ok is False for _, ok in res["matched"]):
+            rep.count("d:late-arrival-rejected")
+        if sc.get("tuning") is not None:
+            k = sc["tuning"]
+            rep.count("d:tuning=" + (k if isinstance(k, str) else "%s:%d" % tuple(k)))
+        if res["others"]:
+            for e in res["served"]:
+                if e[0] == "X" or (e[0] == "B" and e[3] == "neterr"):
+                    rep.count("d:transport-failure-with-other-requests:" +
+                              ("other-peer" if e[0] == "X" and len(e) > 2 and e[2] else "observed-peer"))
+            if any(x[0] == "O" and x[1] == -1 for x in st):
+                rep.count("d:observation-is-newest-entry")
         v, key = c07_bw.oracle(sc, res)
         if v:
             rep.oracle_fail(case, v, key=key)
@@ -1023,11 +1352,22 @@ def run(env, rep):
         R = bench.reset_ticks()
         fams = level_a_cases(env, R)
         loop = asyncio.new_event_loop()
+        import time as _time
+        marks = [_time.time()]
+
+        def mark(name):
+            marks.append(_time.time())
+            rep.notes.append("level %s: %.1f s" % (name, marks[-1] - marks[-2]))
+
         try:
             loop.run_until_complete(run_level_a(env, rep, bench, R, fams))
+            mark("a")
             loop.run_until_complete(run_level_i(env, rep, aiocoap))
-            loop.run_until_complete(run_level_c(env, rep, aiocoap))
+            mark("i")
+            loop.run_until_complete(run_level_c(env, rep, aiocoap, R))
+            mark("c")
             loop.run_until_complete(run_level_d(env, rep, aiocoap))
+            mark("d")
         finally:
             loop.close()
     finally:
@@ -1062,7 +1402,24 @@ def run(env, rep):
             "b:errback-cancels:NotObservable", "b:errback-cancels:ObservationCancelled",
             "b:response-cancelled-before-first:consumer", "b:non-2.xx-with-observe",
             "b:cancel-before-first", "b:consumer=busy", "b:end=NotObservable", "b:end=ObservationCancelled", "b:end=T2", "b:end=T3",
-            "b:rst-sent", "b:ack-sent", "b:event=R:CON", "b:event=R:NON", "b:callbacks"]
+            "b:rst-sent", "b:ack-sent", "b:event=R:CON", "b:event=R:NON", "b:callbacks",
+            # round 4: transport tuning as passed by applications; other requests outstanding at a transport failure;
+            # the application cancelling the observation itself; late arrivals on the token
+            "a:family=tuning", "a:tuning=Reliable", "a:tuning=Unreliable", "a:tuning=subclass", "a:tuning=reset:60",
+            "a:tuning=class-reset:60", "a:tuning=latency",
+            "b:family=tuning", "b:tuning=library-class", "b:tuning=class", "b:tuning=reset:60", "b:tuning=class-reset:60",
+            "b:family=concurrent:E0", "b:family=concurrent:E1", "b:family=concurrent:TO", "b:family=concurrent:RST1",
+            "b:observation-is-newest-entry", "b:end=T1",
+            "c:tuning=Reliable", "c:tuning=Unreliable", "c:tuning=reset:60", "c:tuning=class-reset:60",
+            "c:transport-failure-with-other-requests:observed-peer", "c:transport-failure-with-other-requests:other-peer",
+            "c:observation-is-newest-entry", "c:other-request=pending", "c:other-request=raise",
+            "c:application-cancels:on-response:blockwise", "c:application-cancels:on-response:plain",
+            "c:application-cancels:before-first:blockwise", "c:application-cancels:later:blockwise",
+            "c:late-arrival-rejected",
+            "d:tuning=Reliable", "d:tuning=Unreliable", "d:transport-failure-with-other-requests:observed-peer",
+            "d:transport-failure-with-other-requests:other-peer", "d:observation-is-newest-entry",
+            "d:application-cancels:on-response", "d:application-cancels:before-first",
+            "d:application-cancels:during-first-body", "d:application-cancels:later", "d:late-arrival-rejected"]
     missing = [k for k in need if not rep.hist.get(k)]
     if missing and not (rep.oracle_failures or rep.disagreements):
         # (several of these are counted on what the implementation did: when it misbehaves the
